@@ -184,7 +184,8 @@ CLAIMED = {
         "update the same element with *= resp. /= by the identical factor expression, and for efficiencies the factor is the product of the "
         "first and the second detector's entry; make_fan_data_remove_gaps_help and set_fan_data_add_gaps_help are duals over one index map "
         "(identical loops, get_det_pair_for_bin call, virtual-crystal gap predicates and index compaction; transfer reversed, symmetric fan "
-        "entry written). NOT decided: fixed point and KL descent of the ML iterations (numerical).",
+        "entry written); FanProjData stores each detector pair once (symmetric storage chosen by operator()) and every other member "
+        "function uses raw subscripts of the underlying array only for index ranges. NOT decided: fixed point and KL descent of the ML iterations (numerical).",
         technique="static analysis: sibling/dual agreement of branches and of paired functions over canonical keys with role renaming",
     ),
     "C09": dict(
@@ -232,7 +233,7 @@ CLAIMED = {
         text="Static analysis of the current source; structural clauses of C12 only. Decides: in every get_bin(LOR) implementation "
         "(arc-corrected and non-arc-corrected cylindrical, generic, blocks-on-cylindrical) a bin coordinate is never modified after the "
         "range test that decides found/missing on a path to the successful return, and a coordinate computed there is tested against both "
-        "its bounds before the bin can be returned as found; where a computed view beyond the last view is folded back by num_views the "
+        "its bounds (a coordinate wrapped in a function, abs(x) <= max, tests that one bound only) before the bin can be returned as found; where a computed view beyond the last view is folded back by num_views the "
         "tangential position is negated and the ring difference is taken with exchanged end points under the same flag; by closed-form "
         "algebra arc-corrected get_s = tangential position * bin_size (uniform sampling, odd), non-arc-corrected get_s is odd, get_phi is "
         "affine in the view with slope azimuthal_angle_sampling, get_m is affine in the axial position with the segment's axial sampling, "
@@ -248,7 +249,8 @@ CLAIMED = {
         "exists - max(k_min, c - in_max) .. min(k_max, c - in_min) with the kernel's and the data's index range of the same axis (1D: the "
         "upper bound; its start depends on the boundary condition) - so no coefficient is dropped and nothing outside the kernel is read; "
         "inverse_fourier / inverse_fourier_1d are the forward transform with the opposite sign followed by division by the number of "
-        "elements. NOT decided: every numerical identity of C19 (inverse of forward, real/complex agreement, Parseval, padded-DFT route = "
+        "elements; the padded-DFT filter moves data into and out of the periodic padded array only through the modulo map and its dual "
+        "(copy in, filter in place, copy out, on every path). NOT decided: every numerical identity of C19 (inverse of forward, real/complex agreement, Parseval, padded-DFT route = "
         "direct convolution, separability, mean preservation).",
         technique="static analysis: loop-bound shape rule per subscript axis over canonical keys with single-definition locals inlined; "
         "resolved-callee/argument check of the inverse transforms",
@@ -262,7 +264,9 @@ CLAIMED = {
         "out size and offset = (out origin - in origin) / in size of THAT axis, and every output element is written (no part of the "
         "output keeps what the caller's image held before); the scaling switch covers every ZoomOptions::Scaling "
         "enumerator (preserve_sum unscaled, preserve_values product of all zooms, preserve_projections product of the zooms except x); the "
-        "in-place and parameter-taking variants delegate to the one implementation with their own arguments in order. NOT decided: that "
+        "in-place and parameter-taking variants delegate to the one implementation with their own arguments in order. The geometry SSRB builds "
+        "gives every output segment the ring-difference range and the axial extent (min/max of m reduced over ALL combined input segments) "
+        "of the input segments o*n-n/2..o*n+n/2 it combines. NOT decided: that "
         "matching by get_m / get_k puts every input sinogram into the right output sinogram, count conservation, centre of mass, "
         "uniformity (numerical, over runtime data).",
         technique="static analysis: typestate of the output buffer (fresh/accumulate/store) by dominance and must-pass-through, normalised "
